@@ -276,7 +276,10 @@ fn parse_digits(s: &[u8]) -> Option<u32> {
 }
 
 fn parse_delta(prev_token: &Token, s: &[u8]) -> Option<(u32, u8)> {
-    if let Token::Digits(n) | Token::Delta(n, _) = prev_token {
+    // A number with leading zeros is padded digits; a delta is decoded without padding.
+    if let Token::Digits(n) | Token::Delta(n, _) = prev_token
+        && !s.starts_with(b"0")
+    {
         let m = parse_u32(s).ok()?;
 
         if m >= *n {
